@@ -79,6 +79,7 @@ func (c *FnCtx) tryInlineBody(callee *ssa.Function, bindings, args []Val, resTyp
 	ic.anc = nil
 	ic.retSt = nil
 	ic.params = map[string]Val{}
+	ic.dbgUses = nil
 	ic.st = copyState(c.st)
 	ic.Name = c.Name
 	for i, p := range callee.Params {
